@@ -230,6 +230,11 @@ impl Config {
         // all three `TimelineOrBuilder` entry points: a MergedTimeline, a built timeline, an unbuilt configuration
         // (single-component shapes alternate between the latter two by easing variant)
         let mut b = StateAnimatorBuilder::<S4, PTimeline>::new().from_state(init_state).from_values(initial_values());
+        // in every third configuration X is first registered with Y's timeline: a later `on` for the same state
+        // replaces the earlier one (documented: "the most recent timelines being used")
+        if (self.xi + self.yi) % 3 == 0 {
+            b = b.on(S4::X, self.merged[1].clone());
+        }
         for (i, st) in [S4::X, S4::Y].into_iter().enumerate() {
             b = if self.specs[i].len() == 1 {
                 if (self.variant as usize + i) % 2 == 0 { b.on(st, self.specs[i][0].builder()) } else { b.on(st, self.specs[i][0].build()) }
@@ -457,6 +462,28 @@ fn hname(h: &[Op]) -> String {
     h.iter().map(|o| o.name()).collect::<Vec<_>>().join("; ")
 }
 
+fn zero_advance_before_first_evaluation(cfg: &Config, init: S4, h: &[Op]) -> bool {
+    // only where the initial timeline does not start on the initial values (the negative-delay shape)
+    if !(init == S4::X && cfg.names[0] == "negative-delay") {
+        return false;
+    }
+    let mut cur = init;
+    for op in h {
+        match op {
+            Op::Adv(d) if *d == 0.0 => return true,
+            Op::Adv(_) => return false,
+            Op::Set(s) if *s == cur => {}
+            Op::Set(s) => {
+                if cfg.shape(*s).is_some() {
+                    return false;
+                }
+                cur = *s;
+            }
+        }
+    }
+    false
+}
+
 /// Normal form of a history: consecutive advances merged (exact: all steps are whole numbers of
 /// nanoseconds and dyadic), zero advances and same-state set_state dropped.
 fn normal_form(init: S4, h: &[Op]) -> Vec<Op> {
@@ -613,6 +640,10 @@ pub fn check_history(cfg: &Config, init: S4, h: &[Op], prop: Prop, rank: u64, ac
                 }
             }
         }
+        // Construction does not evaluate the initial timeline: while nothing has been evaluated yet (no advance of
+        // positive length, no entry into an animated state), a zero-length advance is the first evaluation and is
+        // therefore not a no-op. Histories with such an advance are outside C06's clauses.
+        Prop::C06 if zero_advance_before_first_evaluation(cfg, init, h) => {}
         Prop::C06 => {
             let nf = normal_form(init, h);
             if nf.len() != h.len() {
@@ -1554,8 +1585,9 @@ pub fn run(run: Run, prop: Prop) -> ! {
     // at construction, which is outside the statements) and is left out of the C04 no-jump runs entirely
     // (entering a timeline that is already half-way through legitimately moves the values at once).
     // (C05 states the values after every operation, whatever the state before the first one was: there the
-    // negative-delay shape is an initial timeline too - the first advance, even of zero length, puts the values on it)
-    let npx = pool(0).len() - if prop == Prop::C05 { 0 } else { 1 };
+    // negative-delay shape is an initial timeline too - the first advance, even of zero length, puts the values on
+    // it; C06 likewise, leaving out the histories whose first evaluation is a zero-length advance)
+    let npx = pool(0).len() - if prop == Prop::C05 || prop == Prop::C06 { 0 } else { 1 };
     let np = pool(0).len() - if prop == Prop::C04 { 1 } else { 0 };
     for xi in 0..npx {
         for yi in 0..np {
